@@ -294,10 +294,9 @@ func oneLineCommentState(l *sqlLexer) stateFn {
 		l.pos += width
 
 		switch r {
-		case '\\':
-			_, width = utf8.DecodeRuneInString(l.src[l.pos:])
-			l.pos += width
-		case '\n', '\r':
+		// as for the parser, the comment ends at the line feed and nowhere
+		// else: not at a carriage return, and a backslash hides nothing
+		case '\n':
 			return rawState
 		case utf8.RuneError:
 			if width != replacementcharacterwidth {
